@@ -139,6 +139,7 @@ def run(chk, S: Session):
     r4 = chk.rule("R-C08-4", "value identities of the mean algebra (affine matrix-word normal form): apply/marginalise/revert means, revert round trip, merge = composition, preconditioner removal", floor=15)
     mean_algebra_rules(chk, S, r4)
     from_mean_and_std_rules(chk, S, r3)
+    reversal_kernel_rules(chk, S)
     nin, nout, nmid = AD.dim("n_in"), AD.dim("n_out"), AD.dim("n_mid")
     for fam in FAMS:
         cfg = {"factorisation": fam.name}
@@ -576,3 +577,140 @@ def mean_algebra_rules(chk, S, r4):
 
 def where_of_term(t, default):
     return getattr(t, "origin", None) or default
+
+
+# ---------------------------------------------------------------------------
+# R-C08-5: the reversal kernel reproduces the joint law for the solver it is called with.
+# With the joint right factor R = [[R_Y, R12], [0, R_XY]] (y first), any gain G leaves  x - G y  with the right factor
+# [R12 - R_Y G^T ; R_XY]  (stacked), and  x - G y  is uncorrelated with y iff  R_Y^T (R12 - R_Y G^T) = 0  (the normal equations).
+# For an exact solve with a regular R_Y the residual vanishes and R_XY alone is the backward noise factor.  A least-squares solve with a
+# rank-deficient R_Y leaves a residual whose Gram matrix belongs to the backward noise: a kernel that returns R_XY alone loses it.
+KERNEL = "probdiffeq.util.cholesky_util.revert_conditional"
+
+
+def _strip_TT(t):
+    while isinstance(t, T.Term) and t.op == "attr" and t.args[1] == "T" and isinstance(t.args[0], T.Term) and t.args[0].op == "attr" and t.args[0].args[1] == "T":
+        t = t.args[0].args[0]
+    return t
+
+
+def reversal_kernel_rules(chk, S):
+    import ast as _ast
+
+    r5 = chk.rule("R-C08-5", "reversal reproduces the joint law of (x, y) for the solver it is called with: observed factor and gain come from the triangularised joint factor; "
+                  "the backward noise factor is R_XY (exact solves) or carries the residual R12 - R_Y G^T (least-squares solves of a rank-deficient observed factor)", floor=6)
+    it = S.interp()
+
+    def qr_hook(itp, fn, a, kw, site):
+        return T.mk("TRIU", (a[0],), origin=site)
+
+    def sum_hook(itp, fn, a, kw, site):
+        return T.mk("TRIU", (T.mk("np.concatenate", (list(a[0]) if isinstance(a[0], (tuple, list)) else a[0],)),), origin=site)
+
+    it.method_hooks["probdiffeq.util.cholesky_util.triu_via_qr"] = qr_hook
+    it.method_hooks["probdiffeq.util.cholesky_util.sum_of_sqrtm_factors"] = sum_hook
+    RXF, RX, RYX = (T.atom(n, ndims={"": 2}) for n in ("R_X_F", "R_X", "R_YX"))
+    for a_ in (RXF, RX, RYX):
+        a_.meta["ndim"] = 2
+    solve = A("solve")
+    where = "probdiffeq/util/cholesky_util.py"
+    try:
+        out = it.call(it.function_value(KERNEL), [RXF, RX, RYX], {"solve_triu": solve}, "<harness>")
+    except (AnalysisError, RaiseSignal) as e:
+        r5.unknown("revert_conditional", f"not analysed: {e}", where)
+        return
+    S.absorb(it)
+    if not (isinstance(out, (tuple, list)) and len(out) == 2 and isinstance(out[1], (tuple, list)) and len(out[1]) == 2):
+        r5.unknown("revert_conditional", f"returns {T.show(out, 3)}", where)
+        return
+    ry, (rxy, g) = out
+    d = T.mk("getitem", (T.mk("attr", (RYX, "shape")), 1))
+    joint = T.mk("TRIU", (T.mk("np.block", ([[RYX, T.mk("np.zeros", ((T.mk("getitem", (T.mk("attr", (RYX, "shape")), 0)), T.mk("getitem", (T.mk("attr", (RX, "shape")), 1))),))], [RXF, RX]],)),))
+
+    def block(t):
+        """'RY' | 'R12' | 'RXY' for slices of the triangularised joint factor [[R_YX, 0], [R_X_F, R_X]] at d = R_YX.shape[1]."""
+        if not (isinstance(t, T.Term) and t.op == "getitem" and isinstance(t.args[0], T.Term) and t.args[0].op == "TRIU" and isinstance(t.args[1], tuple) and len(t.args[1]) == 2):
+            return None
+        if t.args[0] is not joint:
+            return None
+
+        def part(sl):
+            if isinstance(sl, slice):
+                lo, hi, st = sl.start, sl.stop, sl.step
+            elif isinstance(sl, T.Term) and sl.op == "slice":
+                lo, hi, st = (list(sl.args) + [None, None, None])[:3]
+            else:
+                return None
+            if st is not None:
+                return None
+            if lo is None and hi is d:
+                return "y"
+            if lo is d and hi is None:
+                return "x"
+            return None
+
+        return {("y", "y"): "RY", ("y", "x"): "R12", ("x", "x"): "RXY"}.get((part(t.args[1][0]), part(t.args[1][1])))
+
+    r5.require(block(ry) == "RY", "revert_conditional observed factor", "the leading block of the triangularised joint factor [[R_YX, 0], [R_X_F, R_X]]", f"observed factor = {T.show(ry, 5)}", where_of_term(ry, where))
+    g0 = _strip_TT(g)
+    okg = isinstance(g0, T.Term) and g0.op == "attr" and g0.args[1] == "T" and isinstance(g0.args[0], T.Term) and g0.args[0].op == "call" and g0.args[0].args[0] is solve \
+        and len(g0.args[0].args) == 3 and block(g0.args[0].args[1]) == "RY" and block(g0.args[0].args[2]) == "R12"
+    r5.require(okg, "revert_conditional gain", "G^T = solve(R_Y, R12)", f"gain = {T.show(g, 5)}", where_of_term(g, where))
+    # backward noise
+    form = None
+    if block(rxy) == "RXY":
+        form = "plain"
+    elif isinstance(rxy, T.Term) and rxy.op == "TRIU" and isinstance(rxy.args[0], T.Term) and rxy.args[0].op == "np.concatenate":
+        parts = rxy.args[0].args[0]
+        if isinstance(parts, (list, tuple)) and len(parts) == 2:
+            res = [p_ for p_ in parts if block(p_) != "RXY"]
+            if len(res) == 1 and any(block(p_) == "RXY" for p_ in parts):
+                e = res[0]
+                if isinstance(e, T.Term) and e.op == "neg":
+                    e = e.args[0]
+                if isinstance(e, T.Term) and e.op == "sub":
+                    a_, b_ = e.args
+                    if block(a_) != "R12":
+                        a_, b_ = b_, a_  # the sign of the residual does not matter for its Gram matrix
+                    if block(a_) == "R12" and isinstance(b_, T.Term) and b_.op == "matmul" and block(b_.args[0]) == "RY" and _strip_TT(T.mk("attr", (b_.args[1], "T"))) is _strip_TT(T.mk("attr", (T.mk("attr", (g, "T")), "T"))):
+                        form = "joseph"
+                    elif block(a_) == "R12" and isinstance(b_, T.Term) and b_.op == "matmul" and block(b_.args[0]) == "RY" and okg and _strip_TT(b_.args[1]) is g0.args[0]:
+                        form = "joseph"
+    r5.require(form is not None, "revert_conditional backward noise factor (exact solve, regular observed factor)", f"R_XY{' stacked with the residual R12 - R_Y G^T' if form == 'joseph' else ''}: Gram = Cov(x - G y)",
+               f"backward noise factor = {T.show(rxy, 6)}: neither the trailing block of the joint factor nor that block stacked with the residual R12 - R_Y G^T", where_of_term(rxy, where))
+    # call sites that hand a least-squares solve to the kernel
+    sites = []
+    for m in S.p.modules.values():
+        for node in _ast.walk(m.tree):
+            if isinstance(node, _ast.keyword) and node.arg == "solve_triu" and "lstsq" in _ast.unparse(node.value):
+                sites.append((m, node.value.lineno, _ast.unparse(node.value), "call"))
+            if isinstance(node, (_ast.FunctionDef, _ast.Lambda)):
+                a_ = node.args
+                params = a_.args + a_.kwonlyargs
+                defaults = [None] * (len(a_.args) - len(a_.defaults)) + list(a_.defaults) + list(a_.kw_defaults)
+                for p_, d_ in zip(params, defaults):
+                    if p_.arg == "solve_triu" and d_ is not None and "lstsq" in _ast.unparse(d_):
+                        sites.append((m, d_.lineno, _ast.unparse(d_), "default of " + getattr(node, "name", "<lambda>")))
+    if not sites:
+        r5.unknown("least-squares call sites of the reversal kernel", "none found (the library solved its possibly singular updates with linalg.lstsq_svd: anchor changed)", where)
+    for m, line, src, kind in sorted(sites, key=lambda s_: (s_[0].relpath, s_[1])):
+        fn = _enclosing_function(m, line)
+        r5.require(form == "joseph", f"reversal with solve_triu={src} in {m.name}.{fn}", "the kernel's backward noise carries the residual of the solve",
+                   f"{kind} solve_triu={src}: for a rank-deficient observed factor the least-squares gain leaves a residual R12 - R_Y G^T != 0 whose Gram matrix the kernel drops -- "
+                   "G S G^T + Q < Cov(x): the reversal does not reproduce the joint law (the backward noise is too small)", f"{m.relpath}:{line}")
+
+
+def _enclosing_function(m, line):
+    import ast as _ast
+
+    best = None
+    for node in _ast.walk(m.tree):
+        if isinstance(node, (_ast.FunctionDef, _ast.ClassDef)) and node.lineno <= line <= (node.end_lineno or node.lineno):
+            if best is None or node.lineno >= best[0]:
+                best = (node.lineno, node)
+    # qualified by the chain of enclosing definitions
+    chain = []
+    for node in _ast.walk(m.tree):
+        if isinstance(node, (_ast.FunctionDef, _ast.ClassDef)) and node.lineno <= line <= (node.end_lineno or node.lineno):
+            chain.append((node.lineno, node.name))
+    return ".".join(n for _l, n in sorted(chain)) or "<module>"
